@@ -177,10 +177,7 @@ def dec(s):
     return "" if s == "-" else "".join(chr(int(x)) for x in s.split("."))
 
 
-def run_impl(ctx, cmds, release=False, limit_ms=5000, tag="impl"):
-    """Run the harness over cmds (list of strings); returns list of output lines, same length.
-    Survives timeouts (exit 3) and crashes by restarting after the offending command."""
-    path = os.path.join(ctx.rundir, "%s.cmds" % tag)
+def _run_impl_shard(path, cmds, release, limit_ms):
     with open(path, "w", encoding="utf-8") as f:
         f.write("\n".join(cmds) + "\n")
     outs = []
@@ -201,6 +198,23 @@ def run_impl(ctx, cmds, release=False, limit_ms=5000, tag="impl"):
             outs.append("CRASH")  # process died without printing the line
             skip = len(outs)
     return outs[:len(cmds)]
+
+
+def run_impl(ctx, cmds, release=False, limit_ms=5000, tag="impl", shards=12):
+    """Run the harness over cmds (list of strings); returns list of output lines, same length.
+    Survives timeouts (exit 3) and crashes by restarting after the offending command.
+    The commands are independent: they are split over several harness processes."""
+    path = os.path.join(ctx.rundir, "%s.cmds" % tag)
+    n = len(cmds)
+    shards = max(1, min(shards, n // 40 + 1))
+    if shards == 1:
+        return _run_impl_shard(path, cmds, release, limit_ms)
+    from concurrent.futures import ThreadPoolExecutor
+    per = (n + shards - 1) // shards
+    parts = [cmds[i * per:(i + 1) * per] for i in range(shards)]
+    with ThreadPoolExecutor(max_workers=shards) as ex:
+        res = list(ex.map(lambda ip: _run_impl_shard("%s.%d" % (path, ip[0]), ip[1], release, limit_ms), enumerate(parts)))
+    return [l for r in res for l in r]
 
 
 def run_model(ctx, cmds, tag="model", shards=16):
